@@ -280,10 +280,12 @@ def least_squares(x, y, func, priors=None, silent=False, **kwargs):
             raise ValueError('x and y input (key=' + key + ') do not have the same length')
         for n_loc in range(100):
             try:
-                funcd[key](np.arange(n_loc), x_all.T[0])
+                funcd[key](np.arange(n_loc, dtype=float), x_all.T[0])
             except TypeError:
                 continue
             except IndexError:
+                continue
+            except ValueError:
                 continue
             else:
                 break
@@ -580,10 +582,12 @@ def total_least_squares(x, y, func, silent=False, **kwargs):
 
     for i in range(42):
         try:
-            func(np.arange(i), x.T[0])
+            func(np.arange(i, dtype=float), x.T[0])
         except TypeError:
             continue
         except IndexError:
+            continue
+        except ValueError:
             continue
         else:
             break
